@@ -100,16 +100,29 @@ def _unq(v):
     return v
 
 
-def drive(spec, cuts):
-    """Run the matching ioflo parser over wire+leftover split at `cuts`. -> observation dict"""
+def drive(spec, cuts, first=None):
+    """Run the matching ioflo parser over wire+leftover split at `cuts`. -> observation dict
+    first: an earlier message that the SAME parser object parses (whole) before, the way Valet / Patron reuse the
+    parser of a keep-alive connection (makeParser() for the next message; Patron also reinit(method=...))"""
     from ioflo.aio.http import clienting, serving
     side = spec["side"]
     data = bytes(spec["wire"]) + bytes(spec["leftover"])
     if side == "request":
         p = serving.Requestant(msg=bytearray(), incomer=_Ix())
     else:
-        p = clienting.Respondent(msg=bytearray(), method=spec.get("reqmethod", "GET"))
+        p = clienting.Respondent(msg=bytearray(), method=(first or spec).get("reqmethod", "GET"))
     try:
+        if first is not None:
+            p.msg.extend(bytes(first["wire"]))
+            for _ in range(4 + 2 * first.get("interim", 0)):
+                if p.parser:
+                    p.parse()
+            if p.parser is not None or not p.ended or p.errored or p.msg:
+                return {"exc": "first-message-not-parsed", "excmsg": "parser %r ended %r errored %r rest %r" % (
+                    p.parser, p.ended, p.errored, bytes(p.msg)[:40])}
+            if side == "response":
+                p.reinit(method=spec.get("reqmethod", "GET"))
+            p.makeParser()
         for piece in httpgen.pieces(data, cuts):
             p.msg.extend(piece)
             if p.parser:
@@ -230,6 +243,52 @@ def check_case(spec):
         classes.append("cut-in:" + lab)
     nontrivial = spec["framing"] == "chunked" or bool(cutlabels & {"crlf", "chunksize", "hname", "startline"})
     return fails, classes, nontrivial, nsplits
+
+
+# ----------------------------------------------------------------------------- reused parser object
+def check_reuse(case):
+    """The parser object of a connection parses message `first`, is set up again and parses `second` under splits.
+    -> (failures, classes, nontrivial, nsplits)"""
+    first, spec = case["first"], case["second"]
+    whole = drive(spec, [], first=first)
+    fails = [("reuse:" + s_, "second message of a reused %s (first %r...): %s; second %r" % (
+        "Requestant" if spec["side"] == "request" else "Respondent", bytes(first["wire"])[:60], w, bytes(spec["wire"])[:120]))
+        for s_, w in truth_failures(spec, whole)]
+    seen = set(s_ for s_, _ in fails)
+    n = 1
+    for cuts in case["splits"]:
+        n += 1
+        obs = drive(spec, cuts, first=first)
+        if obs == whole:
+            continue
+        if "exc" in obs:
+            sig, what = "reuse:" + obs["exc"], "split at %r: parser raised %s" % (cuts, obs["excmsg"])
+        elif "exc" in whole:
+            sig, what = "reuse:split:no-raise", "whole parse raised %s but split at %r did not" % (whole["excmsg"], cuts)
+        else:
+            diff = sorted(k for k in obs if obs[k] != whole.get(k))
+            sig = "reuse:split:" + diff[0]
+            what = "split at %r differs from whole parse in %s: %r vs %r" % (
+                cuts, diff, {k: obs[k] for k in diff[:3]}, {k: whole.get(k) for k in diff[:3]})
+        if sig not in seen:
+            seen.add(sig)
+            fails.append((sig, "second message of a reused parser: " + what))
+    classes = ["reuse", "reuse:%s:%s-then-%s" % (spec["side"], first["framing"], spec["framing"])]
+    if first["trailers"]:
+        classes.append("reuse:first-has-trailers")
+    if first["body"]:
+        classes.append("reuse:first-has-body")
+    return fails, classes, bool(first["body"] or first["trailers"] or first["parms"]), n
+
+
+@st.composite
+def reuse_cases(draw, side):
+    first = draw(httpgen.message(side, draw(st.booleans())).filter(lambda m: m["framing"] != "close"))
+    spec = draw(httpgen.message(side, draw(st.booleans())))
+    total = len(spec["wire"]) + len(spec["leftover"])
+    marks = httpgen.interesting_offsets(spec)
+    return {"reuse": True, "first": first, "second": spec,
+            "splits": [draw(httpgen.cuts_for(total, marks)) for _ in range(6)]}
 
 
 # ----------------------------------------------------------------------------- keep-alive connection of a Valet
@@ -354,6 +413,9 @@ def plan(tier):
                 shards.append({"side": side, "small": small, "i": len(shards)})
     for i in range(n):
         shards.append({"part": "keepalive", "i": 700 + i})
+    for side in ("request", "response"):
+        for i in range(n):
+            shards.append({"part": "reuse", "side": side, "i": 800 + len(shards)})
     return shards
 
 
@@ -364,6 +426,19 @@ def work(shard, seed, tier):
     if shard.get("part") == "atheris":
         from vp.fuzz.fuzz_http import run_campaign
         run_campaign(acc, shard["target"], shard["seconds"], seed, max_len=16384)
+        return acc
+    if shard.get("part") == "reuse":
+        tot = {"splits": 0}
+
+        def execute_reuse(case):
+            fails, classes, nontrivial, nsplits = check_reuse(case)
+            tot["splits"] += nsplits
+            return Outcome(fails, nontrivial=nontrivial, classes=classes,
+                           key=(bytes(case["first"]["wire"]), bytes(case["second"]["wire"]), repr(case["splits"])),
+                           sample={"first": bytes(case["first"]["wire"])[:120], "second": bytes(case["second"]["wire"])[:120]})
+        campaign(acc, reuse_cases(shard["side"]), execute_reuse, 60 if tier == "quick" else 900, seed * 1000 + shard["i"],
+                 budget=Budget(120 if tier == "quick" else 480))
+        acc.extra["split_parses"] = tot["splits"]
         return acc
     if shard.get("part") == "keepalive":
         tot = {"splits": 0}
@@ -403,5 +478,7 @@ def work(shard, seed, tier):
 def replay(case):
     from vp.core import env
     env.quiet_ioflo()
+    if case.get("reuse"):
+        return check_reuse(case)[0]
     fails, _, _, _ = check_keepalive(case) if case.get("keepalive") else check_case(case)
     return fails
